@@ -126,6 +126,9 @@ func (fr *Frame) instr(in ssa.Instruction) {
 	case *ssa.MakeChan:
 		ref := vc.newRef(&fr.heap, "new_"+x.Name())
 		fr.set(x, Val{T: ref, Typ: x.Type()})
+		// the capacity of a channel never changes: an uninterpreted function of the channel (spec builtin chancap)
+		vc.declFun("chancap", "(Int) Int")
+		vc.assume(fr.curReach, sEq(sApp("chancap", ref), fr.val(x.Size).T), "channel capacity")
 	case *ssa.MakeClosure:
 		fn := x.Fn.(*ssa.Function)
 		var binds []Val
@@ -139,6 +142,10 @@ func (fr *Frame) instr(in ssa.Instruction) {
 		m := fr.val(x.Map)
 		mt := x.Map.Type().Underlying().(*types.Map)
 		fr.safeObl("nilmap", sNot(sEq(m.T, "0")), x.Pos(), "assignment to entry in nil map")
+		if fr.curReach != "" && fr.curReach != "false" {
+			// execution continues past the store only when the map is not nil (the nil case is the obligation above)
+			vc.assume(fr.curReach, sNot(sEq(m.T, "0")), "stored into")
+		}
 		hm, vm := vc.mapHeaps(mt)
 		k := vc.keyTerm(fr.val(x.Key), mt.Key())
 		cur := vc.hget(fr.heap, hm)
@@ -230,8 +237,73 @@ func (fr *Frame) doAlloc(x *ssa.Alloc) {
 		l := vc.cellLoc(el, ref)
 		vc.storeLoc(&fr.heap, l, vc.zeroOf(el))
 		res.Loc = l
+		if isPrivateCell(x) {
+			if vc.privCells == nil {
+				vc.privCells = map[string]*Loc{}
+			}
+			vc.privCells[ref] = l
+		}
 	}
 	fr.set(x, res)
+}
+
+// isPrivateCell: a local variable cell whose address never leaves the function: it is only loaded and stored, here and in
+// function literals that are themselves only deferred or called directly. No callee can write such a cell, so its content
+// survives the havoc of a call (a modular call of a literal that binds it suspends this, see callFunc).
+func isPrivateCell(x *ssa.Alloc) bool {
+	return cellUsesPrivate(x, 0)
+}
+
+func cellUsesPrivate(v ssa.Value, depth int) bool {
+	if depth > 2 || v.Referrers() == nil {
+		return false
+	}
+	for _, r := range *v.Referrers() {
+		switch u := r.(type) {
+		case *ssa.DebugRef:
+		case *ssa.Store:
+			if u.Val == v {
+				return false
+			}
+		case *ssa.UnOp:
+			if u.Op != token.MUL {
+				return false
+			}
+		case *ssa.MakeClosure:
+			if u.Referrers() == nil {
+				return false
+			}
+			for _, cr := range *u.Referrers() {
+				switch cu := cr.(type) {
+				case *ssa.Defer:
+					if cu.Call.Value != u {
+						return false
+					}
+				case *ssa.Call:
+					if cu.Call.Value != u {
+						return false
+					}
+				case *ssa.DebugRef:
+				default:
+					return false
+				}
+			}
+			fn, ok := u.Fn.(*ssa.Function)
+			if !ok {
+				return false
+			}
+			for i, b := range u.Bindings {
+				if b == v {
+					if i >= len(fn.FreeVars) || !cellUsesPrivate(fn.FreeVars[i], depth+1) {
+						return false
+					}
+				}
+			}
+		default:
+			return false
+		}
+	}
+	return true
 }
 
 func (fr *Frame) doIndexAddr(x *ssa.IndexAddr) {
